@@ -334,6 +334,53 @@ def check_relative_positions(rep, fx):
                 '%s stores its position argument as a range bound as it is (%s): the position is an offset into the backing buffer, so the '
                 'method answers differently for two equal values that start at different bits' % (short(fn), bad[0]), fn, f.j['span'])
     rep.floor('C04.R4 public methods that move a range bound by an argument', n, 4)
+    # the other direction: where a value sits in its buffer is known to this module only.  Nobody else asks for start() / end() /
+    # the raw ranges - a position computed from them (an error text, a cursor, a dump label) differs between equal values
+    ABS = ('bitstr::Bitstr::start', 'bitstr::Bitstr::end', 'bitstr::Bitstr::bits_range', 'bitstr::Bitstr::bytes_range')
+    outside = []
+    n_abs = 0
+    for fn in sorted(fx.fns):
+        f = fx.fns[fn]
+        inside = fn.startswith('bitstr::') or fn.startswith('<bitstr::')
+        for bb, t in f.calls():
+            if callee_of(t) in ABS:
+                n_abs += 1
+                if not inside:
+                    outside.append((fn, short(callee_of(t)), t.get('at')))
+    for fn, c, at in outside:
+        rep.add('C04.R4', 'C04.R4:buffer-position-leaves-the-module:%s' % fn, False,
+                '%s asks for %s, the position of a value inside its backing buffer: what it computes from it differs between equal values '
+                '(a literal and the same bits cut out of a longer input)' % (short(fn), c), fn, at)
+    rep.add('C04.R4', 'C04.R4:buffer-positions-stay-inside-the-module', not outside,
+            '%d uses of start() / end() / raw ranges, all inside bitstr.rs' % n_abs if not outside else '%d uses outside bitstr.rs' % len(outside),
+            'bitstr::Bitstr::start', None, nontrivial=False)
+    rep.floor('C04.R4 uses of the absolute position accessors', n_abs, 10)
+    # byte export through the host API: xeh_bitstr_bytes can only lend out bytes of the value's own buffer (slice(), C03.R6), so a
+    # cell that reaches C has to own byte-aligned storage - wherever the API boxes a cell, a misaligned bit-string in it has been
+    # replaced by a detached copy on the way
+    from .. import inline
+    from .c08 import type_of_operand
+    from ..pathq import blocks_after
+    V = inline.View(fx)
+    n_box = 0
+    for fn in sorted(fx.fns):
+        if not fn.startswith('c_api::') or (V.transparent(fn) and fx.callers().get(fn)):
+            continue
+        f = V(fn)
+        det = [bb for bb, t in f.calls() if callee_of(t) == 'bitstr::Bitstr::detach']
+        after = set()
+        for d in det:
+            after |= blocks_after(f, d) | {d}
+        for bb, t in f.calls():
+            if (callee_of(t) or '') != 'alloc::boxed::Box::<T>::new' or 'cell::Cell' != type_of_operand(f, t['args'][0]).strip():
+                continue
+            n_box += 1
+            okb = bb in after
+            rep.add('C04.R3', 'C04.R3:%s:cell-for-C-owns-aligned-storage' % fn, okb,
+                    'a bit-string that does not sit on byte boundaries of its buffer is detached before the cell is boxed' if okb else
+                    '%s boxes a cell for C as it is: the bytes of a whole-byte bit-string that starts inside a byte of its buffer cannot be lent '
+                    'out (NULL), those of the equal literal can' % short(fn), fn, t.get('at'))
+    rep.floor('C04.R3 cells boxed for C', n_box, 2)
 
 
 def _unconditional(f, bb, dom):
